@@ -59,6 +59,15 @@ def diff_fp(a, b, path=""):
 def make_case(rng, kind):
     case = gi.random_case(rng, n_core_rings=1, n_types=1, gap_model=rng.choice(['none', 'flow']), length=0.1, flow_range=(1.0, 5.0),
                           type_kw=dict(n_ring=rng.choice([2, 3]), n_duct=1))
+    if kind == "core-tol":
+        # several assemblies round a gap, temperature-dependent coolant, correlated parameters re-evaluated only when the properties
+        # have moved by more than a tolerance: the reference state of that test must not survive from one run to the next
+        pos = [(1, 1)] + [p for p in gi.core_positions(2)[1:] if rng.random() < 0.5] + [(2, 4)]
+        case = gi.random_case(rng, positions=sorted(set(pos)), n_types=rng.choice([1, 2]), gap_model=rng.choice(['flow', 'no_flow']),
+                              length=0.1, flow_range=(1.0, 5.0), const_props=False, type_kw=dict(n_ring=rng.choice([2, 3]), n_duct=1))
+        case['core']['coolant_material'] = rng.choice(['sodium', 'nak'])
+        case['setup']['param_update_tol'] = rng.choice([0.01, 0.01, 0.002])
+        return case
     t = case['types']['t0']
     if rng.random() < 0.5:
         gi.random_setup_options(rng, case)
@@ -104,7 +113,7 @@ def outputs_of(r):
 def oracle_input(ctx, rng, n):
     import dassh
     for ci in range(n):
-        kind = ["planes", "plain", "fuel", "pin", "dump", "hotspot"][ci % 6]
+        kind = ["core-tol", "planes", "plain", "fuel", "pin", "dump", "hotspot"][ci % 7]
         case = make_case(rng, kind)
         d = str(ctx.work / ("r%d" % ci))
         path = gi.write_case(case, d)
@@ -142,6 +151,20 @@ def oracle_input(ctx, rng, n):
             continue
         if o1 != o2:
             ctx.violation("c16-second-run-differs:" + kind, "the second construction from the same input gives different temperatures",
+                          case=case, kind=kind)
+        # a construction AFTER sweeps were run from the same input object (what a serial multi-time-point run does)
+        try:
+            o4 = outputs_of(dassh.Reactor(inp, path=d, write_output=False))
+        except SystemExit:
+            o4 = o1
+        except BaseException as ex:
+            ctx.violation("c16-construction-after-sweep:" + kind, "a Reactor(...) built from the same input object after a sweep fails "
+                          "(%s input): %r" % (kind, ex), case=case, kind=kind)
+            o4 = o1
+        if o4 != o1:
+            dev = max(float(np.abs(np.frombuffer(x[0]) - np.frombuffer(y[0])).max()) for x, y in zip(o1, o4))
+            ctx.violation("c16-run-after-sweep-differs:" + kind, "a Reactor built from the same input object AFTER a sweep gives different "
+                          "temperatures than the first one (max %.3g K): the sweep left state in the input object" % dev,
                           case=case, kind=kind)
         # fresh execution
         inp3 = dassh.DASSH_Input(path)
@@ -248,7 +271,7 @@ def run(ctx):
     ctx.rule = ("inputs: plain / requested planes + regions + grids / FuelModel / PinModel / dump request / hot-spot request; per input: fingerprint before/after "
                 "Reactor(...), second construction, fresh execution; dassh main with 2-3 time points serial vs parallel vs alone")
     ctx.prove("Dassh.Props.C16")
-    oracle_input(ctx, rng, 18 if ctx.thorough else 6)
+    oracle_input(ctx, rng, 21 if ctx.thorough else 7)
     oracle_main(ctx, rng, 4 if ctx.thorough else 1)
     ctx.nontrivial = ctx.evals
     ctx.traces = ctx.evals
